@@ -245,16 +245,19 @@ class PathLossBase:
             ax = plt.axes()
             stand_alone_plot = True
 
-        # Calculate the deterministic path loss. Note that we use
-        # calc_path_loss_dB instead of _calc_deterministic_path_loss_dB
-        # because the latter does not respect handle_small_distances_bool.
-        PL = self.calc_path_loss_dB(d)
+        try:
+            # Calculate the deterministic path loss. Note that we use
+            # calc_path_loss_dB instead of _calc_deterministic_path_loss_dB
+            # because the latter does not respect
+            # handle_small_distances_bool.
+            PL = self.calc_path_loss_dB(d)
 
-        # Finally plot the path loss
-        ax.plot(d, PL, **extra_args)
-
-        # Restore shadowing
-        self.use_shadow_bool = old_use_shadow_bool
+            # Finally plot the path loss
+            ax.plot(d, PL, **extra_args)
+        finally:
+            # Restore shadowing (also when the path loss calculation
+            # raises because a distance is too small)
+            self.use_shadow_bool = old_use_shadow_bool
 
         if stand_alone_plot is True:
             ax.set_ylabel('Path Loss (in dB)')
